@@ -177,10 +177,26 @@ type finding struct {
 
 var findings []finding
 
+// addFinding aggregates per key: the contexts in which the same program misbehaves are listed in one violation.
 func addFinding(key string, detail map[string]any) {
 	mu.Lock()
+	defer mu.Unlock()
+	for i := range findings {
+		if findings[i].key == key {
+			if c, ok := detail["context"].(string); ok {
+				cs, _ := findings[i].detail["contexts"].([]string)
+				cs = append(cs, c)
+				sort.Strings(cs)
+				findings[i].detail["contexts"] = cs
+			}
+			return
+		}
+	}
+	if c, ok := detail["context"].(string); ok {
+		detail["contexts"] = []string{c}
+		delete(detail, "context")
+	}
 	findings = append(findings, finding{key, detail})
-	mu.Unlock()
 }
 
 func noteState(s snap) {
@@ -227,12 +243,12 @@ func judge(p program, ctx string, res rx.Res, before, after snap, e *rx.Env, g *
 	switch p.kind {
 	case "persist-realm":
 		r.Outcome("VIOLATION persist-realm succeeded")
-		addFinding(fmt.Sprintf("realm-value-persisted:%s:%s", ctx, p.form), det())
+		addFinding("realm-value-persisted:"+p.form, det())
 		return
 	case "construct":
 		if len(d) > 0 {
 			r.Outcome("construct: tx ok, victim id-space changed")
-			addFinding(fmt.Sprintf("victim-typed-object-created-outside-victim:%s:%s", ctx, p.form), det())
+			addFinding("victim-typed-object-created-outside-victim:"+p.form, det())
 		} else {
 			r.Outcome("construct: tx ok, nothing under the victim's id (" + p.form + ")")
 		}
@@ -248,7 +264,7 @@ func judge(p program, ctx string, res rx.Res, before, after snap, e *rx.Env, g *
 	}
 	if len(d) > 0 {
 		r.Outcome("VIOLATION forbidden write changed the victim")
-		addFinding(fmt.Sprintf("victim-state-changed:%s:%s", ctx, p.label()), det())
+		addFinding("victim-state-changed:"+p.label(), det())
 		return
 	}
 	r.Outcome("tx ok, victim unchanged")
@@ -383,7 +399,9 @@ func main() {
 			pop()
 		}
 		// control: the same statement inside a copy of the victim must work and change that copy
-		if p.kind == "write" {
+		// (a /p/ method on a /p/-stamped global receiver runs with the frozen /p/ realm as storage context: it cannot
+		// write the victim even when the victim itself calls it, so that form has no in-victim control)
+		if p.kind == "write" && !strings.Contains(p.form, "/p/-global receiver") {
 			pop := e.Push()
 			path := fmt.Sprintf("gno.land/r/verif/ctl%d", p.id)
 			src := strings.Replace(ctlRealm(p, victimSrc), "package ctl", fmt.Sprintf("package ctl%d", p.id), 1)
